@@ -277,6 +277,7 @@ def run(ctx):
     import render as _render
     _render.layer_image_unconditional(ctx, rule='R5')
     _render.order(ctx, rule='R5')
+    _render.gate(ctx, rule='R5')          # 'exactly one visible layer': the frame draws a cel iff Layer::is_visible of its layer
     simple = {
         'asefile::tilemap::Tilemap::image': ('asefile::cel::Cel::image', [(1, ['cel'])]),
         'asefile::file::Frame::image': ('asefile::file::AsepriteFile::frame_image', [(1, ['file']), (1, ['index'])]),
@@ -291,6 +292,14 @@ def run(ctx):
             is_param_path(strip_casts(a), i, ns) for a, (i, ns) in zip(t[2], argspec))
         ctx.inst('R5', fn, ok, 'returns %s; must be exactly %s(%s)' % (show(t), callee.split('::')[-1],
                  ', '.join('self.' + '.'.join(ns) for _, ns in argspec)), b.span, key=fn + '|R5|delegate')
+        # .. and hands it on untouched: nothing else in the body gets hold of the image (seed C19-h normalised transparent pixels in
+        # Cel::image only, so the frame of a single cel and the cel's image differ where alpha is 0)
+        for c in q.calls(b):
+            cn = q.callee_name(c)
+            if cn != callee and any(q.contains(x, t) for x in q.arg_terms(c)):
+                ctx.inst('R5', fn + '#postprocess', False, '%s passes the image it got from %s to %s before returning it; the delegating accessors '
+                         'must return the shared routine\'s image untouched' % (fn.split('asefile::')[-1], callee.split('::')[-1], cn), c.span,
+                         key=ctx.key(fn, 'R5', 'touch', cn))
 
     # ---------- R6: AsepriteFile::tilemap builds its Cel through cel(frame, layer_id)
     b = ctx.anchor('asefile::file::AsepriteFile::tilemap')
